@@ -141,6 +141,36 @@ class mappingproxy:
 
 not_a_function = 3
 
+# names that used to be functions and are now bound to things that merely look like one
+import collections as _collections
+import operator as _operator
+from time import sleep          # a builtin under the old function's name
+NT = _collections.namedtuple("NT", "a")          # generated methods: NT._replace has another __module__
+
+
+class _Proxy:
+    """answers every attribute (an RPC / mock style proxy): inspect.unwrap never ends on it"""
+    def __getattr__(self, name):
+        return _Proxy()
+
+
+proxied = _Proxy()
+
+
+class Holder2:
+    po = property(_operator.attrgetter("x"))          # a read-only property whose getter is not a function
+
+
+def _lazy_getattr_owner():
+    class Settings:
+        @property
+        def debug(self):
+            raise KeyError("debug")
+    return Settings()
+
+
+Settings = _lazy_getattr_owner()          # a class name rebound to an instance whose attribute raises something other than AttributeError
+
 
 def Rebound():
     pass
